@@ -48,7 +48,14 @@ Proof.
 Qed.
 
 Lemma count_v_pos_has_open : forall v s, (0 < count_v v s)%Z -> has_open s = true.
-Proof. intros [|] s H; [apply count_pos_has_open | eapply aware_pos_has_open]; exact H. Qed.
+Proof. intros [| |] s H; [apply count_pos_has_open | eapply aware_pos_has_open | eapply aware_pos_has_open]; exact H. Qed.
+
+(** the variants that have the repairs of read_response ([Fix] and [Fix2]) *)
+Definition repaired (v : variant) : bool := match v with Cur => false | Fix | Fix2 => true end.
+
+(** joining a line never removes an opening parenthesis *)
+Lemma has_open_joined : forall v resp l, has_open resp = true -> has_open (joined v resp l) = true.
+Proof. intros [| |] resp l H; cbn [joined]; rewrite has_open_app, H; reflexivity. Qed.
 
 Lemma ws_not_open : forall c, is_ws c = true -> is_open c = false.
 Proof.
@@ -155,80 +162,112 @@ Definition pot (w : world) : nat := w_reads w + length (w_lines w).
 
 (* ------------------------------------------------------------------ T1: the repaired reader is total *)
 
+Lemma rr_loop_rep_total : forall v fuel resp w,
+  repaired v = true -> length (w_lines w) < fuel -> rr_loop v fuel resp w <> OutOfFuel.
+Proof.
+  intros v fuel. induction fuel as [|f IH]; intros resp w Hr Hlen; [lia|].
+  cbn [rr_loop]. destruct (0 <? count_v v resp)%Z; [|discriminate].
+  destruct (read_line_cases w) as [(l & r & El & Er) | [(El & Et & Er) | (El & Et & Er)]]; rewrite Er.
+  - destruct v; [discriminate Hr | |]; cbv iota;
+      (destruct (is_empty l); [discriminate|]; apply IH; [reflexivity|]; cbn; rewrite El in Hlen; cbn in Hlen; lia).
+  - destruct v; [discriminate Hr | |]; cbn; discriminate.
+  - discriminate.
+Qed.
+
 Lemma rr_loop_fix_total : forall fuel resp w,
   length (w_lines w) < fuel -> rr_loop Fix fuel resp w <> OutOfFuel.
+Proof. intros fuel resp w. now apply rr_loop_rep_total. Qed.
+
+Lemma read_response_rep_total : forall v fuel w,
+  repaired v = true -> length (w_lines w) <= fuel -> read_response v fuel w <> OutOfFuel.
 Proof.
-  induction fuel as [|f IH]; intros resp w Hlen; [lia|].
-  cbn [rr_loop]. destruct (0 <? count_v Fix resp)%Z; [|discriminate].
+  intros v fuel w Hr Hlen. unfold read_response.
   destruct (read_line_cases w) as [(l & r & El & Er) | [(El & Et & Er) | (El & Et & Er)]]; rewrite Er.
-  - destruct (is_empty l); [discriminate|].
-    apply IH. cbn. rewrite El in Hlen. cbn in Hlen. lia.
-  - cbn. discriminate.
+  - match goal with |- context [rr_loop v fuel l ?w1] => pose proof (rr_loop_rep_total v fuel l w1 Hr) as T end.
+    cbn in T. rewrite El in Hlen. cbn in Hlen.
+    destruct (rr_loop v fuel l _) as [resp w2| | | |] eqn:E; try discriminate.
+    + destruct (starts_with "(error" (trim_start resp)).
+      * destruct (error_msg v (trim resp)); discriminate.
+      * destruct (try_wait w2) as [[[[] ?]|] ?]; discriminate.
+    + exfalso. apply T; [lia | reflexivity].
+  - (* end of stream at once: the response is empty, the loop does not run *)
+    destruct v; [discriminate Hr | |]; (destruct fuel; cbn; destruct (try_wait _) as [[[[] ?]|] ?]; discriminate).
   - discriminate.
 Qed.
 
 Lemma read_response_fix_total : forall fuel w,
   length (w_lines w) <= fuel -> read_response Fix fuel w <> OutOfFuel.
-Proof.
-  intros fuel w Hlen. unfold read_response.
-  destruct (read_line_cases w) as [(l & r & El & Er) | [(El & Et & Er) | (El & Et & Er)]]; rewrite Er.
-  - match goal with |- context [rr_loop Fix fuel l ?w1] => pose proof (rr_loop_fix_total fuel l w1) as T end.
-    cbn in T. rewrite El in Hlen. cbn in Hlen.
-    destruct (rr_loop Fix fuel l _) as [resp w2| | | |] eqn:E; try discriminate.
-    + destruct (starts_with "(error" (trim_start resp)).
-      * destruct (error_msg Fix (trim resp)); discriminate.
-      * destruct (try_wait w2) as [[[[] ?]|] ?]; discriminate.
-    + exfalso. apply T; [lia | reflexivity].
-  - (* end of stream at once: the response is empty, the loop does not run *)
-    destruct fuel; cbn; destruct (try_wait _) as [[[[] ?]|] ?]; discriminate.
-  - discriminate.
-Qed.
+Proof. intros fuel w. now apply read_response_rep_total. Qed.
 
 (** number of reads: every read either consumes a line or is THE read that sees end of stream *)
+Lemma rr_loop_rep_reads : forall v fuel resp w,
+  repaired v = true ->
+  match rr_loop v fuel resp w with
+  | Ok _ w' => pot w' <= pot w
+  | Err _ w' => pot w' <= pot w + 1
+  | _ => True
+  end.
+Proof.
+  intros v fuel. induction fuel as [|f IH]; intros resp w Hr; cbn [rr_loop];
+    destruct (0 <? count_v _ resp)%Z; try exact I; try lia.
+  destruct (read_line_cases w) as [(l & r & El & Er) | [(El & Et & Er) | (El & Et & Er)]]; rewrite Er; try exact I.
+  - assert (G : match (if is_empty l then Err ESolverDead (mkW r (w_tail w) (w_waits w) (w_wait_dflt w) (w_writes w) (S (w_reads w)))
+                       else rr_loop v f (joined v resp l) (mkW r (w_tail w) (w_waits w) (w_wait_dflt w) (w_writes w) (S (w_reads w)))) with
+                | Ok _ w' => pot w' <= pot w
+                | Err _ w' => pot w' <= pot w + 1
+                | _ => True
+                end).
+    { destruct (is_empty l).
+      + unfold pot. cbn. rewrite El. cbn. lia.
+      + match goal with |- context [rr_loop v f ?x ?w1] => specialize (IH x w1 Hr) end.
+        destruct (rr_loop v f _ _); try exact I;
+          unfold pot in *; cbn in IH; rewrite El; cbn; lia. }
+    destruct v; [discriminate Hr | exact G | exact G].
+  - destruct v; [discriminate Hr | |]; (cbn; unfold pot; cbn; rewrite El; cbn; lia).
+Qed.
+
 Lemma rr_loop_fix_reads : forall fuel resp w,
   match rr_loop Fix fuel resp w with
   | Ok _ w' => pot w' <= pot w
   | Err _ w' => pot w' <= pot w + 1
   | _ => True
   end.
-Proof.
-  induction fuel as [|f IH]; intros resp w; cbn [rr_loop];
-    destruct (0 <? count_v _ resp)%Z; try exact I; try lia.
-  destruct (read_line_cases w) as [(l & r & El & Er) | [(El & Et & Er) | (El & Et & Er)]]; rewrite Er; try exact I.
-  - destruct (is_empty l).
-    + unfold pot. cbn. rewrite El. cbn. lia.
-    + match goal with |- context [rr_loop Fix f ?x ?w1] => specialize (IH x w1) end.
-      destruct (rr_loop Fix f _ _); try exact I;
-        unfold pot in *; cbn in IH; rewrite El; cbn; lia.
-  - cbn. unfold pot. cbn. rewrite El. cbn. lia.
-Qed.
+Proof. intros fuel resp w. now apply rr_loop_rep_reads. Qed.
 
 Lemma try_wait_pot : forall w, pot (snd (try_wait w)) = pot w /\ w_lines (snd (try_wait w)) = w_lines w /\ w_tail (snd (try_wait w)) = w_tail w.
 Proof. intros w. unfold try_wait. destruct (w_waits w); cbn; auto. Qed.
+
+Lemma read_response_rep_reads : forall v fuel w,
+  repaired v = true ->
+  match read_response v fuel w with
+  | Ok _ w' | Err _ w' => w_reads w' + length (w_lines w') <= w_reads w + length (w_lines w) + 1
+  | _ => True
+  end.
+Proof.
+  intros v fuel w Hr. unfold read_response.
+  destruct (read_line_cases w) as [(l & r & El & Er) | [(El & Et & Er) | (El & Et & Er)]]; rewrite Er; try exact I.
+  - match goal with |- context [rr_loop v fuel l ?w1] => pose proof (rr_loop_rep_reads v fuel l w1 Hr) as T; set (w1' := w1) in * end.
+    assert (P1 : pot w1' = pot w) by (unfold pot, w1'; cbn; rewrite El; cbn; lia).
+    destruct (rr_loop v fuel l w1') as [resp w2|e w2| | |]; try exact I.
+    + destruct (starts_with "(error" (trim_start resp)).
+      * destruct (error_msg v (trim resp)); [|exact I]. fold (pot w2) (pot w). lia.
+      * pose proof (try_wait_pot w2) as (Q & _ & _).
+        destruct (try_wait w2) as [[[[] ?]|] w3]; cbn in Q; fold (pot w3) (pot w); lia.
+    + fold (pot w2) (pot w). lia.
+  - (* immediate end of stream *)
+    set (w1 := mkW [] TEof (w_waits w) (w_wait_dflt w) (w_writes w) (S (w_reads w))).
+    assert (E : rr_loop v fuel "" w1 = Ok "" w1) by (destruct v; destruct fuel; reflexivity).
+    rewrite E. cbn [starts_with trim_start].
+    pose proof (try_wait_pot w1) as (Q & _ & _).
+    destruct (try_wait w1) as [[[[] ?]|] w3]; cbn in Q; fold (pot w3) (pot w); unfold pot in *; cbn in *; rewrite El; cbn; lia.
+Qed.
 
 Lemma read_response_fix_reads : forall fuel w,
   match read_response Fix fuel w with
   | Ok _ w' | Err _ w' => w_reads w' + length (w_lines w') <= w_reads w + length (w_lines w) + 1
   | _ => True
   end.
-Proof.
-  intros fuel w. unfold read_response.
-  destruct (read_line_cases w) as [(l & r & El & Er) | [(El & Et & Er) | (El & Et & Er)]]; rewrite Er; try exact I.
-  - match goal with |- context [rr_loop Fix fuel l ?w1] => pose proof (rr_loop_fix_reads fuel l w1) as T; set (w1' := w1) in * end.
-    assert (P1 : pot w1' = pot w) by (unfold pot, w1'; cbn; rewrite El; cbn; lia).
-    destruct (rr_loop Fix fuel l w1') as [resp w2|e w2| | |]; try exact I.
-    + destruct (starts_with "(error" (trim_start resp)).
-      * destruct (error_msg Fix (trim resp)); [|exact I]. fold (pot w2) (pot w). lia.
-      * pose proof (try_wait_pot w2) as (Q & _ & _).
-        destruct (try_wait w2) as [[[[] ?]|] w3]; cbn in Q; fold (pot w3) (pot w); lia.
-    + fold (pot w2) (pot w). lia.
-  - (* immediate end of stream *)
-    set (w1 := mkW [] TEof (w_waits w) (w_wait_dflt w) (w_writes w) (S (w_reads w))).
-    assert (E : rr_loop Fix fuel "" w1 = Ok "" w1) by (destruct fuel; reflexivity).
-    rewrite E. cbn [starts_with trim_start].
-    pose proof (try_wait_pot w1) as (Q & _ & _).
-    destruct (try_wait w1) as [[[[] ?]|] w3]; cbn in Q; fold (pot w3) (pot w); unfold pot in *; cbn in *; rewrite El; cbn; lia.
-Qed.
+Proof. intros fuel w. now apply read_response_rep_reads. Qed.
 
 (* ------------------------------------------------------------------ T1 refuted for today's reader *)
 
@@ -242,7 +281,7 @@ Proof.
   - pose proof Hc as Hc'. apply Z.ltb_lt in Hc'. rewrite Hc'.
     unfold read_line. rewrite El, Et.
     apply IH; cbn [w_lines w_tail]; auto.
-    rewrite count_parens_app.
+    cbn [joined]. rewrite count_parens_app.
     assert (Z0 : count_parens (" " ++ "") = 0%Z) by reflexivity.
     rewrite Z0. lia.
 Qed.
@@ -275,12 +314,13 @@ Proof.
   - destruct (0 <? count_v v resp)%Z; [discriminate|]. injection H as <- <-. auto.
   - destruct (0 <? count_v v resp)%Z eqn:Hc.
     + right. apply Z.ltb_lt in Hc. apply count_v_pos_has_open in Hc.
-      assert (G : forall x w1, rr_loop v f (resp ++ " " ++ x) w1 = Ok r w' -> has_open r = true).
+      assert (G : forall x w1, rr_loop v f (joined v resp x) w1 = Ok r w' -> has_open r = true).
       { intros x w1 Hx. destruct (IH _ _ _ _ Hx) as [[-> _]|Ho]; [|exact Ho].
-        rewrite has_open_app, Hc. reflexivity. }
+        apply has_open_joined. exact Hc. }
       destruct (read_line w) as [l w1|]; [|discriminate].
       destruct v.
       * eapply G; eauto.
+      * destruct (is_empty l); [discriminate|]. eapply G; eauto.
       * destruct (is_empty l); [discriminate|]. eapply G; eauto.
     + injection H as <- <-. auto.
 Qed.
@@ -554,12 +594,12 @@ Proof.
                           | Ok _ w' | Err _ w' => length (w_lines w') <= length (w_lines w) | _ => True end).
     { intros x. match goal with |- context [rr_loop v f x ?w1] => specialize (IH x w1) end.
       destruct (rr_loop v f x _); try exact I; cbn in IH; rewrite El; cbn; lia. }
-    destruct v; [apply G|]. destruct (is_empty l); [cbn; rewrite El; cbn; lia | apply G].
+    destruct v; [apply G| |]; (destruct (is_empty l); [cbn; rewrite El; cbn; lia | apply G]).
   - assert (G : forall x, match rr_loop v f x (mkW [] TEof (w_waits w) (w_wait_dflt w) (w_writes w) (S (w_reads w))) with
                           | Ok _ w' | Err _ w' => length (w_lines w') <= length (w_lines w) | _ => True end).
     { intros x. match goal with |- context [rr_loop v f x ?w1] => specialize (IH x w1) end.
       destruct (rr_loop v f x _); try exact I; cbn in IH; rewrite El; cbn; lia. }
-    destruct v; [apply G|]. cbn. rewrite El. cbn. lia.
+    destruct v; [apply G| |]; (cbn; rewrite El; cbn; lia).
 Qed.
 
 Lemma read_response_lines_le : forall v fuel w,
@@ -661,34 +701,34 @@ Qed.
 
 (* ------------------------------------------------------------------ the repaired calls never run out of fuel *)
 
-Lemma write_cmd_fix_total : forall fuel w, length (w_lines w) <= fuel -> write_cmd Fix fuel w <> OutOfFuel.
+Lemma write_cmd_rep_total : forall v fuel w, repaired v = true -> length (w_lines w) <= fuel -> write_cmd v fuel w <> OutOfFuel.
 Proof.
-  intros fuel w H. unfold write_cmd. pose proof (pop_write_lines w) as P.
+  intros v fuel w Hr H. unfold write_cmd. pose proof (pop_write_lines w) as P.
   destruct (pop_write w) as [[] w1]; cbn in P; try discriminate.
-  pose proof (read_response_fix_total fuel w1) as T. rewrite P in T. specialize (T H).
-  destruct (read_response Fix fuel w1) as [r w2|e w2| | |]; try discriminate; [destruct e; discriminate | congruence].
+  pose proof (read_response_rep_total v fuel w1 Hr) as T. rewrite P in T. specialize (T H).
+  destruct (read_response v fuel w1) as [r w2|e w2| | |]; try discriminate; [destruct e; discriminate | congruence].
 Qed.
 
-Lemma check_sat_call_fix_total : forall fuel w, length (w_lines w) <= fuel -> check_sat_call Fix fuel w <> OutOfFuel.
+Lemma check_sat_call_rep_total : forall v fuel w, repaired v = true -> length (w_lines w) <= fuel -> check_sat_call v fuel w <> OutOfFuel.
 Proof.
-  intros fuel w H. unfold check_sat_call.
-  pose proof (write_cmd_fix_total fuel w H) as T. pose proof (write_cmd_lines_le Fix fuel w) as L.
-  destruct (write_cmd Fix fuel w) as [r w1|e w1| | |]; try discriminate; [|congruence].
+  intros v fuel w Hr H. unfold check_sat_call.
+  pose proof (write_cmd_rep_total v fuel w Hr H) as T. pose proof (write_cmd_lines_le v fuel w) as L.
+  destruct (write_cmd v fuel w) as [r w1|e w1| | |]; try discriminate; [|congruence].
   unfold read_sat_response.
-  pose proof (read_response_fix_total fuel w1) as T1.
-  destruct (read_response Fix fuel w1) as [r1 w2|e w2| | |]; try discriminate.
+  pose proof (read_response_rep_total v fuel w1 Hr) as T1.
+  destruct (read_response v fuel w1) as [r1 w2|e w2| | |]; try discriminate.
   - destruct (String.eqb (trim r1) "sat"); [discriminate|]. destruct (String.eqb (trim r1) "unsat"); discriminate.
   - exfalso. apply T1; [lia | reflexivity].
 Qed.
 
-Lemma get_call_fix_total : forall fuel parse w, length (w_lines w) <= fuel -> get_call Fix fuel parse w <> OutOfFuel.
+Lemma get_call_rep_total : forall v fuel parse w, repaired v = true -> length (w_lines w) <= fuel -> get_call v fuel parse w <> OutOfFuel.
 Proof.
-  intros fuel parse w H. unfold get_call.
-  pose proof (write_cmd_fix_total fuel w H) as T. pose proof (write_cmd_lines_le Fix fuel w) as L.
-  destruct (write_cmd Fix fuel w) as [r w1|e w1| | |]; try discriminate; [|congruence].
+  intros v fuel parse w Hr H. unfold get_call.
+  pose proof (write_cmd_rep_total v fuel w Hr H) as T. pose proof (write_cmd_lines_le v fuel w) as L.
+  destruct (write_cmd v fuel w) as [r w1|e w1| | |]; try discriminate; [|congruence].
   unfold read_parsed.
-  pose proof (read_response_fix_total fuel w1) as T1.
-  destruct (read_response Fix fuel w1) as [r1 w2|e w2| | |]; try discriminate.
+  pose proof (read_response_rep_total v fuel w1 Hr) as T1.
+  destruct (read_response v fuel w1) as [r1 w2|e w2| | |]; try discriminate.
   - destruct (parse (trim r1)); discriminate.
   - exfalso. apply T1; [lia | reflexivity].
 Qed.
@@ -868,36 +908,40 @@ Section RunProofs.
 End RunProofs.
 
 (** with the repaired reader no client program can spin, whatever the stream *)
-Lemma run_fix_total : forall pv pc fuel A (p : prog A) w,
-  length (w_lines w) <= fuel -> snd (run pv pc Fix fuel p w) <> OutOfFuel.
+Lemma run_rep_total : forall pv pc v fuel A (p : prog A) w,
+  repaired v = true -> length (w_lines w) <= fuel -> snd (run pv pc v fuel p w) <> OutOfFuel.
 Proof.
-  intros pv pc fuel A p. induction p as [a | l | k IH | k IH | k IH | k IH]; intros w H; cbn [run]; try discriminate.
-  - pose proof (write_cmd_fix_total fuel w H) as T. pose proof (write_cmd_lines_le Fix fuel w) as L.
-    destruct (write_cmd Fix fuel w) as [u w'|e w'|l| |]; try discriminate; [|congruence].
-    specialize (IH w'). destruct (run pv pc Fix fuel k w') as [tr o]. cbn [snd] in *. apply IH. lia.
-  - pose proof (check_sat_call_fix_total fuel w H) as T. pose proof (check_sat_call_lines_le Fix fuel w) as L.
-    destruct (check_sat_call Fix fuel w) as [a w'|e w'|l| |]; try discriminate; [|congruence].
-    specialize (IH a w'). destruct (run pv pc Fix fuel (k a) w') as [tr o]. cbn [snd] in *. apply IH. lia.
-  - pose proof (get_call_fix_total fuel pv w H) as T. pose proof (get_call_lines_le Fix fuel pv w) as L.
-    destruct (get_call Fix fuel pv w) as [a w'|e w'|l| |]; try discriminate; [|congruence].
-    specialize (IH a w'). destruct (run pv pc Fix fuel (k a) w') as [tr o]. cbn [snd] in *. apply IH. lia.
-  - pose proof (get_call_fix_total fuel pc w H) as T. pose proof (get_call_lines_le Fix fuel pc w) as L.
-    destruct (get_call Fix fuel pc w) as [a w'|e w'|l| |]; try discriminate; [|congruence].
-    specialize (IH a w'). destruct (run pv pc Fix fuel (k a) w') as [tr o]. cbn [snd] in *. apply IH. lia.
+  intros pv pc v fuel A p. induction p as [a | l | k IH | k IH | k IH | k IH]; intros w Hr H; cbn [run]; try discriminate.
+  - pose proof (write_cmd_rep_total v fuel w Hr H) as T. pose proof (write_cmd_lines_le v fuel w) as L.
+    destruct (write_cmd v fuel w) as [u w'|e w'|l| |]; try discriminate; [|congruence].
+    specialize (IH w' Hr). destruct (run pv pc v fuel k w') as [tr o]. cbn [snd] in *. apply IH. lia.
+  - pose proof (check_sat_call_rep_total v fuel w Hr H) as T. pose proof (check_sat_call_lines_le v fuel w) as L.
+    destruct (check_sat_call v fuel w) as [a w'|e w'|l| |]; try discriminate; [|congruence].
+    specialize (IH a w' Hr). destruct (run pv pc v fuel (k a) w') as [tr o]. cbn [snd] in *. apply IH. lia.
+  - pose proof (get_call_rep_total v fuel pv w Hr H) as T. pose proof (get_call_lines_le v fuel pv w) as L.
+    destruct (get_call v fuel pv w) as [a w'|e w'|l| |]; try discriminate; [|congruence].
+    specialize (IH a w' Hr). destruct (run pv pc v fuel (k a) w') as [tr o]. cbn [snd] in *. apply IH. lia.
+  - pose proof (get_call_rep_total v fuel pc w Hr H) as T. pose proof (get_call_lines_le v fuel pc w) as L.
+    destruct (get_call v fuel pc w) as [a w'|e w'|l| |]; try discriminate; [|congruence].
+    specialize (IH a w' Hr). destruct (run pv pc v fuel (k a) w') as [tr o]. cbn [snd] in *. apply IH. lia.
+Qed.
+
+Lemma session_rep_total : forall pv pc v fuel A (p : prog A) w,
+  repaired v = true -> length (w_lines w) <= fuel -> session pv pc v fuel p w <> OutOfFuel.
+Proof.
+  intros pv pc v fuel A p w Hr H. unfold session.
+  pose proof (run_rep_total pv pc v fuel A p w Hr H) as T.
+  pose proof (run_lines_le pv pc v fuel A p w) as L.
+  destruct (snd (run pv pc v fuel p w)) as [a w'|e w'|l| |]; cbn [shutdown]; try discriminate; [| |congruence].
+  - pose proof (write_cmd_rep_total v fuel w' Hr) as T2.
+    destruct (write_cmd v fuel w'); try discriminate. exfalso. apply T2; [lia | reflexivity].
+  - pose proof (write_cmd_rep_total v fuel w' Hr) as T2.
+    destruct (write_cmd v fuel w'); try discriminate. exfalso. apply T2; [lia | reflexivity].
 Qed.
 
 Lemma session_fix_total : forall pv pc fuel A (p : prog A) w,
   length (w_lines w) <= fuel -> session pv pc Fix fuel p w <> OutOfFuel.
-Proof.
-  intros pv pc fuel A p w H. unfold session.
-  pose proof (run_fix_total pv pc fuel A p w H) as T.
-  pose proof (run_lines_le pv pc Fix fuel A p w) as L.
-  destruct (snd (run pv pc Fix fuel p w)) as [a w'|e w'|l| |]; cbn [shutdown]; try discriminate; [| |congruence].
-  - pose proof (write_cmd_fix_total fuel w') as T2.
-    destruct (write_cmd Fix fuel w'); try discriminate. exfalso. apply T2; [lia | reflexivity].
-  - pose proof (write_cmd_fix_total fuel w') as T2.
-    destruct (write_cmd Fix fuel w'); try discriminate. exfalso. apply T2; [lia | reflexivity].
-Qed.
+Proof. intros pv pc fuel A p w. now apply session_rep_total. Qed.
 
 (** a session ends with a value only if the client's run did, with the same value *)
 Lemma session_ok_inv : forall pv pc v fuel A (p : prog A) w a w',
@@ -958,7 +1002,7 @@ Proof.
   intros v fuel. induction fuel as [|f IH]; intros resp w l; cbn [rr_loop];
     destruct (0 <? count_v v resp)%Z; try discriminate.
   destruct (read_line w) as [x w1|]; [|discriminate].
-  destruct v; [apply IH|]. destruct (is_empty x); [discriminate | apply IH].
+  destruct v; [apply IH| |]; (destruct (is_empty x); [discriminate | apply IH]).
 Qed.
 
 Lemma error_msg_fix_some : forall t, error_msg_fix t <> None.
@@ -968,18 +1012,22 @@ Proof.
   destruct (_ <? _); discriminate.
 Qed.
 
-Lemma read_response_fix_no_panic : forall fuel w l, read_response Fix fuel w <> Panic l.
+Lemma read_response_rep_no_panic : forall v fuel w l, repaired v = true -> read_response v fuel w <> Panic l.
 Proof.
-  intros fuel w l. unfold read_response.
+  intros v fuel w l Hr. unfold read_response.
   destruct (read_line w) as [x w1|]; [|discriminate].
-  pose proof (rr_loop_no_panic Fix fuel x w1) as NP.
-  destruct (rr_loop Fix fuel x w1) as [resp w2|e w2|l'| |]; try discriminate.
+  pose proof (rr_loop_no_panic v fuel x w1) as NP.
+  destruct (rr_loop v fuel x w1) as [resp w2|e w2|l'| |]; try discriminate.
   - destruct (starts_with "(error" (trim_start resp)).
-    + unfold error_msg. pose proof (error_msg_fix_some (trim resp)) as S.
+    + assert (EM : error_msg v (trim resp) = error_msg_fix (trim resp)) by (destruct v; [discriminate Hr | reflexivity | reflexivity]).
+      rewrite EM. pose proof (error_msg_fix_some (trim resp)) as S.
       destruct (error_msg_fix (trim resp)); [discriminate | congruence].
     + destruct (try_wait w2) as [[[[] ?]|] ?]; discriminate.
   - exfalso. eapply NP. reflexivity.
 Qed.
+
+Lemma read_response_fix_no_panic : forall fuel w l, read_response Fix fuel w <> Panic l.
+Proof. intros fuel w l. now apply read_response_rep_no_panic. Qed.
 
 Lemma broken_pipe_is_error : forall v fuel w w1 u w',
   pop_write w = (WBrokenPipe, w1) -> write_cmd v fuel w <> Ok u w'.
@@ -991,22 +1039,23 @@ Qed.
 
 (* ------------------------------------------------------------------ when the repaired reader blocks *)
 
-(** everything the reader would have joined: resp, then each remaining line after a blank *)
-Fixpoint join_lines (resp : string) (ls : list string) : string :=
-  match ls with [] => resp | l :: r => join_lines (resp ++ " " ++ l) r end.
+(** everything the reader would have joined: resp, then each remaining line, the way the variant
+    joins them ([joined]: after a blank for [Cur] and [Fix], as they are for [Fix2]) *)
+Fixpoint join_lines (v : variant) (resp : string) (ls : list string) : string :=
+  match ls with [] => resp | l :: r => join_lines v (joined v resp l) r end.
 
 Lemma rr_loop_blocked_open : forall v fuel resp w,
   rr_loop v fuel resp w = Blocked ->
-  w_tail w = TAlive /\ (0 < count_v v (join_lines resp (w_lines w)))%Z.
+  w_tail w = TAlive /\ (0 < count_v v (join_lines v resp (w_lines w)))%Z.
 Proof.
   intros v fuel. induction fuel as [|f IH]; intros resp w H; cbn [rr_loop] in H.
   - destruct (0 <? count_v v resp)%Z; discriminate.
   - destruct (0 <? count_v v resp)%Z eqn:Hc; [|discriminate].
     destruct (read_line_cases w) as [(l & r & El & Er) | [(El & Et & Er) | (El & Et & Er)]]; rewrite Er in H.
-    + assert (G : rr_loop v f (resp ++ " " ++ l) (mkW r (w_tail w) (w_waits w) (w_wait_dflt w) (w_writes w) (S (w_reads w))) = Blocked).
-      { destruct v; [exact H|]. destruct (is_empty l); [discriminate | exact H]. }
+    + assert (G : rr_loop v f (joined v resp l) (mkW r (w_tail w) (w_waits w) (w_wait_dflt w) (w_writes w) (S (w_reads w))) = Blocked).
+      { destruct v; [exact H| |]; (destruct (is_empty l); [discriminate | exact H]). }
       apply IH in G. cbn [w_tail w_lines] in G. rewrite El. exact G.
-    + destruct v; [|cbn in H; discriminate].
+    + destruct v; [|cbn in H; discriminate|cbn in H; discriminate].
       apply IH in H. cbn [w_tail] in H. destruct H as [H _]. discriminate.
     + split; [exact Et|]. rewrite El. cbn [join_lines]. apply Z.ltb_lt. exact Hc.
 Qed.
@@ -1019,7 +1068,7 @@ Lemma read_response_blocked_open : forall v fuel w,
   w_tail w = TAlive /\
   match w_lines w with
   | [] => True
-  | l :: r => (0 < count_v v (join_lines l r))%Z
+  | l :: r => (0 < count_v v (join_lines v l r))%Z
   end.
 Proof.
   intros v fuel w H. unfold read_response in H.
